@@ -1151,6 +1151,22 @@ class DiskRefsContainer(RefsContainer):
             # Known not peelable
             return self[name]
 
+    def _make_room_for_ref_file(self, filename: bytes) -> None:
+        """Prepare the place where a loose ref file is about to be locked.
+
+        Creates the containing directory, and removes a hierarchy of empty
+        directories sitting where the ref file itself belongs (left behind by
+        a refused update of a ref below it, by packing, or by an interrupted
+        writer), as git does. Directories that hold anything are left alone.
+        """
+        ensure_dir_exists(os.path.dirname(filename))
+        if os.path.isdir(filename) and not os.path.islink(filename):
+            for root, _dirs, _files in os.walk(filename, topdown=False):
+                try:
+                    os.rmdir(root)
+                except OSError:
+                    return
+
     def read_loose_ref(self, name: Ref) -> bytes | None:
         """Read a reference file and return its contents.
 
@@ -1313,7 +1329,7 @@ class DiskRefsContainer(RefsContainer):
             if packed_name.startswith(prefix):
                 raise IsADirectoryError(filename)
 
-        ensure_dir_exists(os.path.dirname(filename))
+        self._make_room_for_ref_file(filename)
         with GitFile(filename, "wb") as f:
             if old_ref is not None:
                 try:
@@ -1404,7 +1420,7 @@ class DiskRefsContainer(RefsContainer):
             if packed_name.startswith(prefix):
                 raise IsADirectoryError(filename)
 
-        ensure_dir_exists(os.path.dirname(filename))
+        self._make_room_for_ref_file(filename)
         with GitFile(filename, "wb") as f:
             if os.path.exists(filename) or realname in self.get_packed_refs():
                 f.abort()
@@ -1452,7 +1468,7 @@ class DiskRefsContainer(RefsContainer):
         """
         self._check_refname(name)
         filename = self.refpath(name)
-        ensure_dir_exists(os.path.dirname(filename))
+        self._make_room_for_ref_file(filename)
         f = GitFile(filename, "wb")
         try:
             if old_ref is not None:
